@@ -62,7 +62,10 @@ META = {
     'rule': 'BFS over histories of add(system)/remove(id)/step on real System objects; a case is a history; '
             'non-trivial = leads to a canonical state not seen before; outcomes = distinct execution orders observed',
     'alphabet': {'quick_pool(key,id,priority)': QUICK_POOL, 'thorough_pool': THOROUGH_POOL, 'odd_pool': ODD_POOL,
-                 'ops': 'add(key) for every pool object, remove(id) for every id plus unknown id zz, step'},
+                 'ops': 'add(key) for every pool object, remove(id) for every id plus unknown id zz, step; construct(key) of a throw-away twin; '
+                        'in the smaller pools also cleanup(key) = the system\'s own clean_up(), reprio(key, value) while unregistered, '
+                        'reopen(key) of a closed window', 'more_pools': {'own_ordering': LT_POOL, 'late_start': LATE_POOL,
+                 'numbered_ids': INT_POOL, 'closing_windows': END_POOL, 'reassigned_priorities': [REPRIO_POOL, REPRIO]}},
     'bounds': {'quick': 'fixpoint over quick_pool', 'thorough': 'fixpoint over quick_pool + depth-6 no-dedup leg + '
                'thorough_pool to depth bound 7 (cap reported)'},
     'assumptions': ['timestep is dropped from the canonical state: every system in the pool has the default '
@@ -638,6 +641,17 @@ def run(ctx):
         r = hbfs.explore(ctx, hs, 'small_pool', max_depth=40, procs=ctx.procs)
         ctx.leg('small_pool', **r)
         return
+    # the small pools first: a change that adds hidden state makes the big pools slow
+    for name, pool, kw in (('own_ordering', LT_POOL, {'cleanup': True}), ('late_start', LATE_POOL, {}),
+                           ('numbered_ids', INT_POOL, {'cleanup': True}), ('closing_windows', END_POOL, {}),
+                           ('reassigned_priorities', REPRIO_POOL, {'cleanup': True, 'reprio': REPRIO})):
+        hp = Harness(pool, **kw)
+        r = hbfs.explore(ctx, hp, name, max_depth=40, procs=ctx.procs)
+        ctx.leg(name, **r)
+        if not r.get('fixpoint'):
+            ctx.cap(f'{name}: fixpoint not reached')
+        if ctx.violations:
+            return
     h = Harness(QUICK_POOL)
     r = hbfs.explore(ctx, h, 'quick_pool', max_depth=40, procs=ctx.procs)
     ctx.leg('quick_pool', **r)
@@ -652,16 +666,6 @@ def run(ctx):
         ctx.cap('odd_pool: fixpoint not reached')
     if ctx.violations:
         return
-    for name, pool, kw in (('own_ordering', LT_POOL, {'cleanup': True}), ('late_start', LATE_POOL, {}),
-                           ('numbered_ids', INT_POOL, {'cleanup': True}), ('closing_windows', END_POOL, {}),
-                           ('reassigned_priorities', REPRIO_POOL, {'cleanup': True, 'reprio': REPRIO})):
-        hp = Harness(pool, **kw)
-        r = hbfs.explore(ctx, hp, name, max_depth=40, procs=ctx.procs)
-        ctx.leg(name, **r)
-        if not r.get('fixpoint'):
-            ctx.cap(f'{name}: fixpoint not reached')
-        if ctx.violations:
-            return
     small = [('b', 'b', 0), ('a', 'a', 0), ('c', 'c', 1), ('k', 'k', None), ('k2', 'k', 0), ('a2', 'a', 1)]
     ha = Harness(small, aliases=True)
     r = hbfs.explore(ctx, ha, 'deprecated_entry_points', max_depth=40, procs=ctx.procs)
